@@ -565,16 +565,15 @@ func c04(c *core.Ctx) {
 				if fn == nil || fn.Blocks == nil {
 					continue
 				}
-				core.Instrs(fn, func(in ssa.Instruction) {
-					st, ok := in.(*ssa.Store)
-					if !ok || !core.IsErrorValue(st.Val) || core.IsNilConst(st.Val) {
-						return
+				for _, fs := range frameFieldSets(fn, "err") {
+					st := struct {
+						Val ssa.Value
+						At  ssa.Instruction
+					}{fs.Val, fs.At}
+					if !core.IsErrorValue(st.Val) || core.IsNilConst(st.Val) {
+						continue
 					}
-					base, _, isF := core.FieldOf(st.Addr)
-					if !isF || core.NamedOf(base.Type()) != "frame" {
-						return
-					}
-					for _, l := range core.ErrLeaves(st.Val, st) {
+					for _, l := range core.ErrLeaves(st.Val, st.At) {
 						ec, _, isCall := core.CallResult(l.V)
 						if !isCall || !(core.InfoOf(&ec.Call).Is(istatusPkg+".Status.Err") || core.InfoOf(&ec.Call).Is(statusPkg+".Status.Err")) {
 							continue
@@ -597,7 +596,7 @@ func c04(c *core.Ctx) {
 							c.Check(okConv, key, mk.Pos(), "the handler's non-status error is converted with status.FromContextError (or after a context translator)", "the handler's non-status error is converted with "+ci.Name+" without a context translator: a handler returning its own ctx.Err() is reported as Unknown instead of Canceled / DeadlineExceeded")
 						}
 					}
-				})
+				}
 			}
 		}
 		// in-process client: returns of a received frame's err
